@@ -418,6 +418,12 @@ def _callers_args(repo: Repo, f: FuncInfo, param: str) -> list[tuple[FuncInfo, a
                 i = pos.index(param)
                 if i < len(c.args) and not any(isinstance(a, ast.Starred) for a in c.args[: i + 1]):
                     expr = c.args[i]
+        if expr is None and direct:
+            prm = next((p_ for p_ in f.params if p_.arg == param), None)
+            default = Types._default_of(f, prm) if prm is not None and not isinstance(f.node, ast.Lambda) else None
+            if default is not None:
+                out.append((f, default))
+                continue
         if expr is None:
             return None
         out.append((g, expr))
@@ -687,6 +693,16 @@ class Origins:
         if dct.id in f.param_names or not binds:
             if not binds and f.outer is not None and dct.id not in f.param_names:
                 return self.dict_values(f.outer, dct, d, seen, pos)
+            if not binds and dct.id in f.param_names and d < self.MAX:
+                args = _callers_args(self.repo, f, dct.id)
+                if args:
+                    out0: list[Leaf] = []
+                    for g, a in args:
+                        sub = None if isinstance(a, ast.Starred) else self.dict_values(g, a, d + 1, seen, pos)
+                        if sub is None:
+                            return None
+                        out0 += sub
+                    return out0 or None
             return None
         out: list[Leaf] = []
         for kind, src, p in binds:
@@ -856,6 +872,11 @@ class Origins:
                     return [(f, c, "opaque")]
                 if nm == "filter" and len(c.args) == 2:
                     return self.elements(f, c.args[1], d, seen, pos)
+                if nm == "chain" and c.args:
+                    out = []
+                    for a in c.args:
+                        out += self.elements(f, a, d, seen, pos)
+                    return out
                 if nm == "map" and len(c.args) == 2:
                     fn = c.args[0]
                     lf = getattr(fn, "_func", None) if isinstance(fn, ast.Lambda) else None
@@ -879,9 +900,14 @@ class Origins:
                 if nm == "items" and not c.args:
                     if pos and pos[0] == 0:
                         return self.elements(f, c.func.value, d, seen, pos[1:])
+                    if pos and pos[0] == 1:
+                        vals = self.dict_values(f, c.func.value, d, seen, pos[1:])
+                        if vals is not None:
+                            return vals
                     return [(f, c, "opaque")]
                 if nm in ("values",) and not c.args:
-                    return [(f, c, "opaque")]
+                    vals = self.dict_values(f, c.func.value, d, seen, pos)
+                    return vals if vals is not None else [(f, c, "opaque")]
                 if nm in ("copy", "union", "difference", "intersection") and isinstance(c.func.value, (ast.Name, ast.Attribute)):
                     out = self.elements(f, c.func.value, d, seen, pos)
                     if nm == "union":
@@ -1056,7 +1082,8 @@ def _leaf_status(repo: Repo, g: FuncInfo, e: ast.expr, kind: str, depth: int) ->
             if isinstance(arg, (ast.List, ast.Tuple)) and arg.elts and not isinstance(arg.elts[-1], ast.Starred):
                 last = arg.elts[-1]
                 if _const_str(last) == "":
-                    return "dot" if (_const_str(fn.value) or "").endswith(".") else "unknown"
+                    sep = _const_str(fn.value) if isinstance(fn.value, ast.Constant) else fold(repo, g.module, fn.value, g)
+                    return "dot" if (sep or "").endswith(".") else "unknown"
                 return dot_status(repo, g, last, depth + 1)
             if isinstance(arg, (ast.GeneratorExp, ast.ListComp)):
                 return dot_status(repo, g, arg.elt, depth + 1)
@@ -1318,6 +1345,9 @@ def _selected_from(repo: Repo, f: FuncInfo, name: str) -> tuple[str, list[ast.ex
     `max((v for ..), key=len)`, `next(filter(pred, xs), None)`, also through an intermediate local: the (variable, conditions that
     hold for it, whether it may be None instead)."""
     d = local_defs(repo, f).get(name)
+    if d is None:
+        e0 = _parse_atom(name)  # not a local: the expression itself (`return next((c for c in cs if ..), None)`)
+        d = e0 if isinstance(e0, (ast.Call, ast.Subscript)) else None
     maybe_none = False
     for _ in range(6):
         if d is None:
@@ -1360,7 +1390,7 @@ def _selected_from(repo: Repo, f: FuncInfo, name: str) -> tuple[str, list[ast.ex
     return None
 
 
-def _site_facts(repo: Repo, f: FuncInfo, node: ast.AST, other: str):
+def _site_facts(repo: Repo, f: FuncInfo, node: ast.AST, other: str, assume_not_none: bool = False):
     """Path condition of `node` (private helper predicates inlined) plus what selecting X from a filtered collection
     (`X = next(v for v in .. if test(v))`, `X = [v for v in .. if test(v)][0]`) establishes for X."""
     from core.guards import atom as mk, f_and, f_or, to_formula
@@ -1375,7 +1405,7 @@ def _site_facts(repo: Repo, f: FuncInfo, node: ast.AST, other: str):
             v, conds_, maybe_none = sel
             others.add(v)
             held = f_and([to_formula(cond, copy_prop(f)) for cond in conds_])
-            facts.append(f_or([mk(f"{other} is None"), held]) if maybe_none else held)
+            facts.append(f_or([mk(f"{other} is None"), held]) if maybe_none and not assume_not_none else held)
     return f_and(facts), others
 
 
@@ -1976,6 +2006,29 @@ def _slice_by_len(repo: Repo, f: FuncInfo, n: ast.AST, other_e: ast.expr, bounda
             return "unsafe", f"`{norm(n, 60)}` cuts a module name at the length of another string without a boundary-safe prefix test"
     except AnalysisError:
         pass
+    # the other string was selected by a helper: `ancestor = self._most_specific(name, candidates)` with
+    # `return next(m for m in candidates if name == m or name.startswith(m + "."))` / a loop returning the first match
+    if depth < 2 and isinstance(other_e, ast.Name) and not isinstance(f.node, ast.Lambda):
+        d_ = local_defs(repo, f).get(other_e.id)
+        if isinstance(d_, ast.Call):
+            cs = origins(repo)._callees(f, d_)
+            if len(cs) == 1 and not isinstance(cs[0].node, ast.Lambda):
+                g = cs[0]
+                pos_ = _positional(g)
+                hp = next((pos_[i] for i, a in enumerate(d_.args) if norm(a) == hay and i < len(pos_)), None) or next((k.arg for k in d_.keywords if norm(k.value) == hay), None)
+                rets = [r for r in own_nodes(g.node) if isinstance(r, ast.Return) and r.value is not None and not (isinstance(r.value, ast.Constant) and r.value.value is None)]
+                if hp is not None and rets and not any(isinstance(x, (ast.Yield, ast.YieldFrom)) for x in own_nodes(g.node)):
+                    ok = True
+                    for r in rets:
+                        try:
+                            facts_r, others_r = _site_facts(repo, g, r.value, norm(r.value), assume_not_none=True)  # None: nothing is cut
+                            safe_r, _raw = _relation_atoms(repo, g, facts_r, hp, others_r)
+                            if not (safe_r and implies(facts_r, f_or(safe_r))) and not _ancestor_or_self(repo, g, r.value, hp):
+                                ok = False
+                        except AnalysisError:
+                            ok = False
+                    if ok:
+                        return "safe", "the other string was selected by a helper that returns an ancestor (or the name itself) established by a boundary-safe test"
     # the relation may have been established by the callers of a small helper: `label = alias + _rest(name, ancestor)`
     if depth < 2 and not isinstance(f.node, ast.Lambda) and isinstance(hay_e, ast.Name) and isinstance(other_e, ast.Name) and hay_e.id in f.param_names and other_e.id in f.param_names:
         ha, oa = _callers_args(repo, f, hay_e.id), _callers_args(repo, f, other_e.id)
